@@ -813,7 +813,11 @@ func postData(req *http.Request, logBody bool) (*PostData, error) {
 
 		vs, err := url.ParseQuery(string(body))
 		if err != nil {
-			return nil, err
+			// The body is not the form its Content-Type announces. That is the client's
+			// business: it is logged as text, and the request goes on unchanged.
+			log.Errorf("har: cannot parse form post data: %v", err)
+			pd.Text = string(body)
+			return pd, nil
 		}
 
 		for n, vs := range vs {
